@@ -280,7 +280,7 @@ def fix_step(source: str, calls: dict, refs: dict) -> dict:
     if not r.diags:
         info["status"] = "clean"
         return info
-    if change is None or change["add"] is None or r.new_code == "".join(ln + "\n" for ln in source.splitlines()):
+    if change is None or change["add"] is None:
         info["status"] = "no-fix"
         info["blocked"] = bool(change is not None and change["add"] is None and change["nchanges"] > 1)
         return info
